@@ -50,12 +50,12 @@ def main():
     items = []
     for tid, tmpl in ASSERTS:
         for bl in ((2, 3, 4) if tier == "quick" else (1, 2, 3, 4, 5)):
-            items.append(dict(tid=tid, bl=bl, n=(14 if tier == "quick" else 120)))
+            items.append(dict(tid=tid, bl=bl, n=(60 if tier == "quick" else 600)))
     for tid, _ in DECLS:
         for bl in (2, 3):
             items.append(dict(tid=tid, bl=bl, n=2))
     common.rng(PROP, "plan").shuffle(items)
-    nshards = 8 if tier == "quick" else 32
+    nshards = 16 if tier == "quick" else 48
     jobs = [dict(seed="%d/%s/%d" % (common.seed(), PROP, s), items=items[s::nshards]) for s in range(nshards)]
     R = common.Run(PROP, "exploration", RULE)
     for job, res, err in shard.run_jobs("vf.checks.C03", "worker", jobs, timeout=3600, nproc=16):
